@@ -1,13 +1,17 @@
 """C10 - label-based access addresses exactly the labelled periods."""
+from contracts.c10_labels import CONTRACTS as LABEL_CONTRACTS
 from props.containers_bounded import LabelAccess
 from verif.spec import PropertySpec
 
 PROPERTY = PropertySpec(
-    id='C10', contracts=[], bounded=[LabelAccess()], level='exploration',
-    explanation='bounded: every label and label slice over ten span types on the real container',
-    level_text='bounded run-time contract (stand-in) over spans of each supported type: single labels, every (start, stop, step) triple incl. open '
+    id='C10', contracts=list(LABEL_CONTRACTS), bounded=[LabelAccess()], level='other',
+    explanation='_resolve_period_slice and the tuple-key paths of __getitem__/__setitem__ are executed symbolically from source with symbolic span length, labels '
+                '(integers, so that 0 is a falsy label), data and value, concrete steps in {None,1,2,3}: the addressed position set is exactly pos(a)..pos(b) in steps '
+                'of s, open ends are the ends of the span, a single label addresses pos(label), an absent label or unknown name raises KeyError and touches nothing, '
+                'no other series changes. The span look-up per span type is an assumed contract, exercised by the bounded conformance run over ten span types.',
+    level_text='proof obligations for the slice/label resolution (all spans, labels, data) + bounded conformance of the assumed look-up contract over spans of each supported type: single labels, every (start, stop, step) triple incl. open '
                'ends and falsy labels, absent labels, get and set, read-back through every access path',
     level_note='bound: span length 4 (quick) / 1..6 (thorough) per type',
-    technique='contract-based verification: run-time contract of the label look-up / slice resolution, bounded enumeration',
+    technique='contract-based deductive verification (pyvc + z3) of the label/slice resolution; bounded conformance of the look-up contract per span type',
     design_ref='DESIGN.md section 10 / C10',
 )
